@@ -307,6 +307,58 @@ func (w *addrWorld) netOf(a tcpip.Address) tcpip.NetworkProtocolNumber {
 	return ipv4.ProtocolNumber
 }
 
+// reconnSend: one long-lived UDP socket is connected to a peer, sends without naming a
+// destination, is connected to another peer, sends again, ...: every datagram goes to the
+// current peer's address and - on Ethernet - to the link address resolved for *its* next hop.
+func (w *addrWorld) reconnSend(s Step) {
+	peers := []tcpip.Address{"\x0a\x00\x01\x07", "\x0a\x00\x01\x08", "\x0a\x00\x02\x07", "\x0a\x00\x02\x08", "\x0a\x09\x00\x05", "\x0a\x09\x01\x05", "\x08\x08\x08\x08"}
+	dst := peers[s.A%len(peers)]
+	ep := w.socks[500]
+	if ep == nil {
+		var err *tcpip.Error
+		ep, err = w.s.NewEndpoint(udp.ProtocolNumber, ipv4.ProtocolNumber, &waiter.Queue{})
+		must(err, "udp endpoint")
+		if e := ep.Bind(tcpip.FullAddress{Port: 7500}, nil); e != nil {
+			ep.Close()
+			return
+		}
+		w.socks[500] = ep
+	}
+	w.nop++
+	payload := adPayload(w.seed, w.nop, 4+int(s.D)%600)
+	w.begin()
+	r, routed := w.choose(dst, "")
+	if e := ep.Connect(tcpip.FullAddress{Addr: dst, Port: 9200}); e != nil {
+		w.Probes["reconnect_failed"]++
+		return
+	}
+	w.service()
+	var err *tcpip.Error
+	for try := 0; try < 4; try++ {
+		var ch <-chan struct{}
+		_, ch, err = ep.Write(tcpip.SlicePayload(append([]byte(nil), payload...)), tcpip.WriteOptions{})
+		w.service()
+		if err != tcpip.ErrWouldBlock || ch == nil {
+			break
+		}
+	}
+	w.Probes["sends_after_reconnect"]++
+	if err != nil || !routed {
+		return
+	}
+	for _, d := range w.seen {
+		if d.UDP != nil && bytes.Equal(d.UDP.Payload, payload) {
+			w.checkOut("datagram of a re-connected socket", d, r, dst, "")
+			if d.UDP.DstPort != 9200 || d.UDP.SrcPort != 7500 {
+				w.Fail("wrong-addressing", "", "datagram of a socket bound to 7500 and connected to port 9200 carries ports %d>%d", d.UDP.SrcPort, d.UDP.DstPort)
+			}
+			w.Probes["udp_frames_checked"]++
+			return
+		}
+	}
+	w.Fail("wrong-addressing", "", "Write on a socket connected to % x succeeded and no frame carries the datagram", []byte(dst))
+}
+
 func (w *addrWorld) udpSend(s Step) {
 	dst := adDst[s.A%len(adDst)]
 	kind := s.B % 4
@@ -620,6 +672,8 @@ func (w *addrWorld) apply(s Step) {
 	switch s.Op {
 	case "udp":
 		w.udpSend(s)
+	case "reconn":
+		w.reconnSend(s)
 	case "in":
 		w.inbound(s)
 	case "connect":
@@ -632,7 +686,9 @@ func (w *addrWorld) apply(s Step) {
 
 func (w *addrWorld) next() Step {
 	r := w.Rng
-	switch r.Pick(10, 6, 3, 2) {
+	switch r.Pick(10, 6, 3, 2, 3) {
+	case 4:
+		return Step{Op: "reconn", A: r.Intn(7), D: int64(r.Intn(600))}
 	case 0:
 		n := []int{0, 1, 3, 4, 5, 100, 101, 511, 1000, 1400}[r.Intn(10)]
 		return Step{Op: "udp", A: r.Intn(len(adDst)), B: r.Pick(4, 3, 4, 2), C: r.Intn(12), D: int64(n)}
